@@ -332,3 +332,37 @@ func TestReplay_PanickingCloseDoesNotAbortDisposal(t *testing.T) {
 		}
 	}
 }
+
+// scope.resolve#post[overlapping_close_reports_the_disposed_error]: a resolution whose construction overlaps the Close of its scope either
+// completes normally or reports the disposed error; it does not hand out an instance the container has already disposed.
+func TestReplay_ResolutionOverlappingCloseReportsDisposed(t *testing.T) {
+	for _, lt := range []Lifetime{Scoped, Transient} {
+		c := NewCollection()
+		var sc Scope
+		ctor := func() *rpC {
+			sc.Close()
+			return &rpC{&rpDisp{name: "late"}}
+		}
+		if lt == Scoped {
+			c.AddScoped(ctor)
+		} else {
+			c.AddTransient(ctor)
+		}
+		p, err := c.Build()
+		if err != nil {
+			t.Fatal(err)
+		}
+		sc, err = p.CreateScope(context.Background())
+		if err != nil {
+			t.Fatal(err)
+		}
+		v, rerr := Resolve[*rpC](sc)
+		if rerr == nil && v != nil && atomic.LoadInt32(&v.closed) != 0 {
+			t.Errorf("REPLAY-CONFIRMED scope.resolve#post[overlapping_close_reports_the_disposed_error]: %v: Resolve returned an instance that is already disposed (closed %d times) with a nil error", lt, atomic.LoadInt32(&v.closed))
+		}
+		if rerr != nil && !errors.Is(rerr, ErrScopeDisposed) {
+			t.Errorf("REPLAY-CONFIRMED scope.resolve#post[overlapping_close_reports_the_disposed_error]: %v: unexpected error %v", lt, rerr)
+		}
+		p.Close()
+	}
+}
